@@ -6,6 +6,7 @@ CONSTANTS
   SlotType <- GenSlotTypeBBDD
   MaxExplicit = 1
   Policy <- GenPolicy
+  Layout <- GenLayout
   MemberTypes <- MembersNone
 INVARIANTS TypeOK Conservation AliveIffReferenced NoDangling StaticTypes
 PROPERTIES GLastAgrees
